@@ -423,7 +423,7 @@ class Variants(productmd.composeinfo.VariantBase):
     def deserialize_1_0(self, parser):
         if not parser.has_option("tree", "variants"):
             return []
-        variant_ids = [i for i in parser.get("tree", "variants").split(",")]
+        variant_ids = [i for i in parser.get("tree", "variants").split(",") if i]
         return variant_ids
 
 
@@ -1049,6 +1049,9 @@ class General(productmd.common.MetadataBase):
         # HACK: if there are more variants and main_variant is None,
         # use the first variant if
         if main_variant is None:
+            if not variants:
+                # no variants -> nothing more to mirror
+                return
             variant = variants[0]
         else:
             variant = main_variant
